@@ -417,6 +417,9 @@ def run_cases(ctx, n: int, focus: str):
                             "the recorded lambda does not compute what the Python lambda computes",
                             key=(focus + "-name-capture-on-inlining") if reverse_capture_family(body) else None)
             # ---- history: rebind / delete captured names after the call
+            import types as _types0
+
+            saved_funcs = {k: v for k, v in vars(mod).items() if isinstance(v, _types0.FunctionType)}
             saved = {}
             hist = []
             for name, newv in rng.sample(REBINDS, rng.choice([1, 2, 4])):
@@ -435,9 +438,15 @@ def run_cases(ctx, n: int, focus: str):
                 for ev, exp in zip(events[:2], expected[:2]):
                     if exp[0] != "ok":
                         continue
-                    still_named = {n.id for n in ast.walk(lam) if isinstance(n, ast.Name)} & {r[0] for r in REBINDS}
+                    # a helper left by name on purpose is looked up at execution time - and so is everything IT calls
+                    # (hkw2 left by name calls h2): any module-level function still named in the recorded lambda
+                    import types as _types
+
+                    still_named = {n.id for n in ast.walk(lam) if isinstance(n, ast.Name)} & \
+                        ({r[0] for r in REBINDS} | {k for k, v in saved_funcs.items()})
                     if still_named:
-                        continue  # helper left by name on purpose: it is looked up at execution time
+                        ctx.dist["frozen-check skipped: a helper is left by name"] += 1
+                        continue
                     try:
                         got = eval_recorded(lam, mod, ev)
                     except Exception as e:
